@@ -1,11 +1,10 @@
 //! C10 — output records are complete, never interleaved, carry exactly the written bytes.
 
-use std::future::Future;
 use std::path::PathBuf;
 use std::pin::Pin;
-use std::sync::atomic::{AtomicBool, AtomicUsize, Ordering};
+use std::sync::atomic::{AtomicUsize, Ordering};
 use std::sync::{Arc, Mutex};
-use std::task::{Context, Poll, Wake, Waker};
+use std::task::{Poll, Waker};
 
 use fastcgi_server::async_io::{Request, StreamWriter};
 use fastcgi_server::parser::request;
@@ -436,36 +435,6 @@ fn run_a(c: &mut Case, big: bool) {
 
 // ---- Run B: real threads -------------------------------------------------------------------------
 
-struct ThreadWaker {
-    thread: std::thread::Thread,
-    flag: AtomicBool,
-}
-impl Wake for ThreadWaker {
-    fn wake(self: Arc<Self>) {
-        self.wake_by_ref();
-    }
-    fn wake_by_ref(self: &Arc<Self>) {
-        self.flag.store(true, Ordering::SeqCst);
-        self.thread.unpark();
-    }
-}
-
-pub fn block_on<F: Future>(f: F) -> F::Output {
-    let mut f = Box::pin(f);
-    let tw = Arc::new(ThreadWaker { thread: std::thread::current(), flag: AtomicBool::new(true) });
-    let waker = Waker::from(tw.clone());
-    let mut cx = Context::from_waker(&waker);
-    loop {
-        if tw.flag.swap(false, Ordering::SeqCst) {
-            if let Poll::Ready(v) = f.as_mut().poll(&mut cx) {
-                return v;
-            }
-        } else {
-            std::thread::park_timeout(std::time::Duration::from_millis(50));
-        }
-    }
-}
-
 fn run_b(c: &mut Case, iterations: usize) {
     let s = setup(&mut c.rng);
     let cfg = config(s.buffer, 3);
@@ -483,17 +452,31 @@ fn run_b(c: &mut Case, iterations: usize) {
     let logs: Vec<Arc<Mutex<WLog>>> = writers.iter().map(|_| Arc::new(Mutex::new(WLog::default()))).collect();
     let done = Arc::new(Done { left: AtomicUsize::new(writers.len()), waker: Mutex::new(None) });
     let seeds: Vec<u64> = (0..writers.len()).map(|_| c.rng.next_u64()).collect();
+    let group = crate::threads::Group::new(writers.len() + 1);
+    let panics: Arc<Mutex<Vec<String>>> = Arc::new(Mutex::new(Vec::new()));
+    let mut stalled = false;
     std::thread::scope(|sc| {
         for (k, (_, w)) in writers.into_iter().enumerate() {
-            let (pipe, log, done, seed) = (pipe.clone(), logs[k].clone(), done.clone(), seeds[k]);
+            let (pipe, log, done, seed, group, panics) = (pipe.clone(), logs[k].clone(), done.clone(), seeds[k], group.clone(), panics.clone());
             sc.spawn(move || {
+                let _fin = crate::threads::FinishGuard(group.clone());
                 let mut rng = Rng::new(seed);
                 let ops: Vec<WOp> = (0..iterations).map(|_| if rng.chance(1, 10) { WOp::Flush } else { WOp::Write(*rng.pick(&[0usize, 1, 7, 8, 9, 30, 300])) }).collect();
-                block_on(writer_task(w, k as u8, ops, pipe, log, done));
+                let done2 = done.clone();
+                let r = crate::ev::guarded(|| crate::threads::block_on(&group, writer_task(w, k as u8, ops, pipe, log, done)));
+                match r {
+                    Ok(Ok(())) => {}
+                    Ok(Err(_)) => done2.finish(),
+                    Err(p) => {
+                        panics.lock().unwrap().push(p);
+                        done2.finish();
+                    }
+                }
             });
         }
         // the request's own task reads (and thereby flushes replies) concurrently
-        block_on(async {
+        let _fin = crate::threads::FinishGuard(group.clone());
+        let r = crate::threads::block_on(&group, async {
             let mut buf = [0u8; 16];
             loop {
                 match req.read(&mut buf).await {
@@ -503,7 +486,16 @@ fn run_b(c: &mut Case, iterations: usize) {
             }
             done.wait().await;
         });
+        stalled = r.is_err();
     });
+    if let Some(p) = panics.lock().unwrap().first() {
+        c.violation(format!("threads:{}", crate::ev::panic_signature(p)), Json::obj().with("problem", format!("a writer thread panicked: {p}")));
+        return;
+    }
+    if stalled || group.deadlocked.load(Ordering::SeqCst) {
+        c.violation("threads:deadlock", Json::obj().with("problem", "all threads parked with no wake-up outstanding while writers / the reader are unfinished (lost wake-up on the output lock)"));
+        return;
+    }
     let out = pipe.lock().unwrap().outbox.clone();
     let wl: Vec<(u8, WLog)> = types.iter().zip(&logs).map(|(t, l)| (*t, l.lock().unwrap().clone())).collect();
     let model = spec::model_streams(&s.wire, s.pre_end, s.id, s.role);
